@@ -56,18 +56,9 @@ def a_casesWrapBare(T):
     return translate(i.test, {'isinstance(cases[0], str)': boo('firstIsStr'), 'isiterable(cases[0])': boo('firstIsIterable')}, 'bool')
 
 
-def a_comboResultsWrap(T):
-    """parse_combo_results: a single named output is wrapped into a 1-tuple"""
-    f = find(T['prepare'], ['parse_combo_results'])
-    i = one([n for n in f.body if isinstance(n, ast.If)], 'if')
-    return translate(i.test, {'var_names is not None': boo('(!namesIsNone)'), 'isinstance(var_names, str)': boo('namesIsStr'),
-                              'len(var_names)': num('n')}, 'bool')
-
-
 ANCHORS = [
     ('varDimsElemCorr', '(isStr isEmpty firstInNames : Bool) : Bool', a_varDimsElemCorr),
     ('varDimsQuantAny', ': Bool', a_varDimsQuantAny),
     ('varDimsStrRefused', '(n : Int) : Bool', a_varDimsStrRefused),
     ('casesWrapBare', '(firstIsStr firstIsIterable : Bool) : Bool', a_casesWrapBare),
-    ('comboResultsWrap', '(namesIsNone namesIsStr : Bool) (n : Int) : Bool', a_comboResultsWrap),
 ]
